@@ -109,6 +109,28 @@ func c01probes() []c01probe {
 	}
 	add("C01-response-cookie-nonstring", pdesign(nil, nil, &m.Method{Name: "m", Result: rt.Obj(rt.Fld("n", m.Prim(m.Int), false), rt.Fld("s", str, false)),
 		HTTP: &m.HTTPEndpoint{Routes: route("GET", "/m"), Responses: []*m.Response{{Status: 200, Cookies: []m.Mapping{{Attr: "n", Wire: "ncookie"}}}}}}))
+	// gRPC
+	{
+		health := &m.Service{Name: "health", HasHTTP: true, Methods: []*m.Method{{Name: "ping", HTTP: &m.HTTPEndpoint{Routes: route("GET", "/ping")}}}}
+		gd := func(types []*m.UserType, withHTTP bool, meth *m.Method) *m.Design {
+			d := &m.Design{API: m.API{Name: "probe", Server: true}, Types: types, Services: []*m.Service{{Name: "probe", HasGRPC: true, Methods: []*m.Method{meth}}}}
+			if withHTTP {
+				d.Services = append(d.Services, health)
+			}
+			return d
+		}
+		tf := func(n string, a *m.Attr, req bool, tag int) *m.Field { return &m.Field{Name: n, Attr: a, Required: req, Tag: tag} }
+		add("C01-grpc-only-design-example-main", gd(nil, false, &m.Method{Name: "m", GRPC: &m.GRPCEndpoint{}}))
+		add("C01-grpc-response-metadata", gd(nil, true, &m.Method{Name: "m", Result: rt.Obj(tf("name", str, true, 1), tf("other", str, false, 2)), GRPC: &m.GRPCEndpoint{Headers: []m.Mapping{{Attr: "name"}}}}))
+		add("C01-gen-hangs-grpc-recursive-type", gd([]*m.UserType{{Name: "Item", Var: "v1", Attr: rt.Obj(tf("children", &m.Attr{Type: &m.Type{Kind: m.Array, Elem: m.UserRef("Item")}}, false, 1))}}, true,
+			&m.Method{Name: "m", Payload: m.UserRef("Item"), GRPC: &m.GRPCEndpoint{}}))
+		add("C01-grpc-metadata-alias-length-validation-gen-panic", gd([]*m.UserType{{Name: "Opts", Var: "v1", Attr: &m.Attr{Type: &m.Type{Kind: m.String}, V: &m.Validation{MinLen: intp(0)}}}}, true,
+			&m.Method{Name: "m", Payload: rt.Obj(tf("unit", m.UserRef("Opts"), false, 1), tf("x", str, false, 2)), GRPC: &m.GRPCEndpoint{Metadata: []m.Mapping{{Attr: "unit"}}}}))
+		add("C01-grpc-metadata-alias-type", gd([]*m.UserType{{Name: "Leaf", Var: "v1", Attr: m.Prim(m.Int)}}, true,
+			&m.Method{Name: "m", Payload: rt.Obj(tf("y2", m.UserRef("Leaf"), false, 1), tf("x", str, false, 2)), GRPC: &m.GRPCEndpoint{Metadata: []m.Mapping{{Attr: "y2"}}}}))
+		add("C01-grpc-metadata-uint32-array-does-not-compile", gd(nil, true,
+			&m.Method{Name: "m", Payload: rt.Obj(tf("owner", &m.Attr{Type: &m.Type{Kind: m.Array, Elem: m.Prim(m.UInt32)}}, false, 1), tf("x", str, false, 2)), GRPC: &m.GRPCEndpoint{Metadata: []m.Mapping{{Attr: "owner"}}}}))
+	}
 	// fixed findings: the minimal designs that used to fail
 	{
 		a := &m.Attr{Type: &m.Type{Kind: m.Array, Elem: str}, V: &m.Validation{MaxLen: intp(1)}}
